@@ -9,10 +9,20 @@ command applications `forget | ignore | reset-dep` in every argument form (none,
 unknown name, -s/--follow-sub, -a/--all, --disable-default/--enable-default), each one
   * preceded by a dump of the logical DB content (read back through a fresh Dependency on the same
     backend: json / dbm / sqlite3) -- this dump is the [db] handed to the model,
-  * followed by a dump, and by `run --continue <all top-level tasks>` with a recording reporter.
+  * followed by a dump, and by a real `doit run` with a recording reporter.  The options of that run are the
+    ones that interact with the saved state, chosen from the PRNG: the selection (all top-level tasks, or
+    1-3 tasks / sub-tasks named on the command line), --continue or not, -a/--always-execute or not,
+    `-n 2 -P thread` (with --continue only).  A step may also have NO command (`none`): two runs in a row.
+    Every seed also gets, per backend, the histories  run; ignore T; run -a; run -a <dependents of T>; run;
+    forget T; run  for T a plain task, a group (its sub-tasks) and a setup-task.
 Model side (inside Coq): Commands.forget / ignore_cmd / resetdep_cmd on the task table READ FROM THE
 REAL Task OBJECTS the loader returned (name, task_dep, setup_tasks, calc_dep, subtask_of, file_dep,
-targets; uptodate items come from the spec), then Commands.next_run on the table TaskControl leaves.
+targets; uptodate items come from the spec), then Commands.next_run (Runner.run_serial with the selection and
+the flags continue / always of that run) on the table TaskControl leaves.  A thread-parallel run is compared
+with the serial model run (C08: per-task outcomes and, under --continue, the exit code do not depend on the
+schedule).  A run WITHOUT --continue that ends with a failure stops at a point that depends on the iteration order
+of Python sets, which this check does not record: then (Commands.observe_cmd) every task the real run reported
+must have the mask of the --continue model run, and the exit code must be the model's.
 
 Encoding (Commands.observe_cmd; both sides the same list of ints):
   [outcome: 0 ok | 1 message only | 100+id "'id' is not a task." | 97 KeyError | 98 other exception]
@@ -412,6 +422,8 @@ def model_cmd(step, ids, default):
             args, dflt, *('true' if a[k] else 'false' for k in ('sub', 'dd', 'all'))))
     if step['cmd'] == 'ignore':
         return 'ignore_cmd @TB@ %s @DB@' % args
+    if step['cmd'] == 'none':
+        return 'no_cmd @DB@'
     return 'resetdep_cmd md5o current @CK@ @FS@ @TB@ %s @DB@' % args
 
 
@@ -488,8 +500,29 @@ def item_evaluated(u):
     return not (u[0] == 'none' or (u[0] == 'call' and u[1] is None))
 
 
-def oracle(out, w, spec, step, names, stale, before, after, code, lines, acts, follow, run_table, dangling, case):
+def run_opts(step):
+    """options of the run that follows a step (older payloads have none: --continue, all top-level tasks)"""
+    r = dict(flags=['--continue'], always=False, cont=True, par=False, sel=None)
+    r.update(step.get('run') or {})
+    return r
+
+
+def reached(run_table, sel):
+    """tasks a run of the selection has to go through whatever their state: task_dep / calc_dep closure"""
+    seen, work = set(), list(sel)
+    while work:
+        x = work.pop()
+        if x in seen or x not in run_table:
+            continue
+        seen.add(x)
+        work += run_table[x]['task_dep'] + run_table[x]['calc_dep']
+    return seen
+
+
+def oracle(out, w, spec, step, names, stale, before, after, code, lines, acts, follow, run_table, dangling, case, ro=None, frc=0, rsel=()):
     """documented effect, computed from the spec only"""
+    ro = ro or run_opts(step)
+    whole = follow is not None and (ro['cont'] or frc == 0)          # the run was not cut short
     def viol(what, shape):
         out.violations.append(dict(what=what, shape=shape, case=case))
     cmd, a = step['cmd'], step['margs']
@@ -502,6 +535,10 @@ def oracle(out, w, spec, step, names, stale, before, after, code, lines, acts, f
         return
     unknown = [n for n in a['names'] if n not in known]
     unchanged = all(after[n] == before[n] for n in allrec)
+    if cmd == 'none':
+        if not unchanged:
+            viol('two runs in a row: the DB changed in between', 'no-command-db-changed')
+        return
     if cmd == 'forget':
         form_no_default = (not a['names'] and spec['default'] is None and not a['all'] and not a['dd'])
         if a['all']:
@@ -539,8 +576,8 @@ def oracle(out, w, spec, step, names, stale, before, after, code, lines, acts, f
                 viol('forget %s: record of %s %s' % (a, n, 'survived' if n in exp else 'was changed'),
                      'forget-no-args-no-default' if form_no_default else 'forget-wrong-set')
                 return
-        if follow is not None:
-            for n in sorted(exp & known):
+        if whole:
+            for n in sorted(exp & known & reached(run_table, rsel)):
                 if follow[n] & 1:
                     continue
                 if not excused(w, spec, run_table, after, n, None):
@@ -615,14 +652,14 @@ def oracle(out, w, spec, step, names, stale, before, after, code, lines, acts, f
             for f in d['file_dep']:
                 m, s, c = w.fsview[f]
                 want_saved[f] = ['md5', m, s, c] if w.ck == 'md5' else ['ts', m]
-            keep = (b is not None and b['ck'] == ckz)
+            keep = (b is not None and b['ck'] in (0, ckz))       # 0: a record without 'checker:' (only the ignore mark) is not dropped
             if (r is None or r['deps'] != sorted(d['file_dep']) or r['ck'] != ckz
                     or any(r['saved'].get(f) != st for f, st in want_saved.items())
                     or r['values'] != (b['values'] if b else {}) or r['result'] != (b['result'] if b else None)
                     or r['ignore'] != (b['ignore'] if keep else False)):
                 viol('reset-dep processed %s but the record is not (state of the present files, old values/result)' % n, 'resetdep-wrong-record')
                 return
-        if follow is not None:
+        if follow is not None and not ro['always']:
             for n in sorted(reset_ok):
                 if follow[n] & 1 and not excused_reset(w, n, after):
                     viol('task %s was executed by the run right after its reset-dep (all file deps present)' % n, 'resetdep-task-executed')
@@ -738,14 +775,19 @@ def run_case(ctx, out, spec, idx, cases):
             ids_all['old'] = len(order)
         dangling = any(x not in ids for n in order for x in cmd_table[n]['task_dep'] + cmd_table[n]['setup'])
         before = w.dump(allrec)
-        rc, so, se, acts, _ = w.doit(step['cmd'], cmd_args(step), cli_db=spec['cli_db'])
+        if step['cmd'] == 'none':
+            rc, so, se, acts = 0, '', '', []
+        else:
+            rc, so, se, acts, _ = w.doit(step['cmd'], cmd_args(step), cli_db=spec['cli_db'])
         code = outcome_code(rc, so, se, ids)
         lines = parse_lines(step['cmd'], so, ids_all)
         after = w.dump(allrec)
         follow, frc = None, None
         top = [n for n in order if cmd_table[n]['subtask_of'] is None]
+        ro = run_opts(step)
+        sel = [n for n in (ro['sel'] or top) if n in ids] or top
         if step['follow'] and run_table is not None:
-            frc, _, fse, _, ev = w.doit('run', ['--continue'] + top, cli_db=spec['cli_db'])
+            frc, _, fse, _, ev = w.doit('run', list(ro['flags']) + sel, cli_db=spec['cli_db'])
             follow = outcomes(ev, allrec)
             if frc not in (0, 1, 2):
                 frc = 98
@@ -758,7 +800,9 @@ def run_case(ctx, out, spec, idx, cases):
         if follow is not None:
             expected += [-7] + [follow[n] for n in allrec] + [frc]
             defs_txt += 'Definition @RT@ := %s.\n' % table_coq(order, run_table, w.defs, ids)
-            expr = 'observe_cmd md5o %s %s @CK@ @FS@ @RT@ %s (%s)' % (tasks_l, files_l, nl(ids[n] for n in top), model_cmd(step, ids, spec['default']))
+            expr = 'observe_cmd md5o %s %s @CK@ @FS@ @RT@ %s %s %s [%s] (%s)' % (
+                tasks_l, files_l, nl(ids[n] for n in sel), 'true' if ro['cont'] else 'false', 'true' if ro['always'] else 'false',
+                '; '.join(str(follow[n]) for n in allrec), model_cmd(step, ids, spec['default']))
         else:
             expr = 'observe_db %s %s (%s)' % (tasks_l, files_l, model_cmd(step, ids, spec['default']))
         tag = '_%d_%d' % (idx, si)
@@ -768,12 +812,14 @@ def run_case(ctx, out, spec, idx, cases):
         case = dict(spec=spec, step=si)
         cases.append(dict(model=expr, expected=expected, defs=defs_txt,
                           desc=dict(case=idx, step=si, cmd=step['cmd'], args=cmd_args(step), backend=spec['backend'],
-                                    default_tasks=spec['default'], order=order)))
-        oracle(out, w, spec, step, order, stale, before, after, code, lines, acts, follow, run_table, dangling, case)
+                                    default_tasks=spec['default'], order=order,
+                                    next_run=(list(ro['flags']) + sel) if follow is not None else None)))
+        oracle(out, w, spec, step, order, stale, before, after, code, lines, acts, follow, run_table, dangling, case, ro, frc, sel)
         ignore_oracle(out, w, run_table, after, follow, order, case)
         changed = sorted(n for n in allrec if after[n] != before[n])
         summ.append(dict(cmd=step['cmd'], args=cmd_args(step), code=code, changed=changed, follow=follow, rc=frc, dangling=dangling,
-                         ntasks=len(order), default=spec['default']))
+                         ntasks=len(order), default=spec['default'], run=ro, run_args=list(ro['flags']) + sel,
+                         marked=sorted(n for n in order if after[n] and after[n]['ignore'])))
     return summ
 
 
@@ -853,13 +899,17 @@ def gen_spec(rng, kind=None):
     real = [n for n, p, t in all_tasks(spec) if t is not None]
     spec['pre'] = dict(fail=[n for n in real if rng.random() < 0.12], ck=rng.choice(['md5', 'md5', 'timestamp']))
     nsteps = rng.choice([1, 1, 2, 2, 3])
+    iuf = None
+    if kind == 'ignore-until-forget':
+        nsteps = rng.choice([2, 3, 3, 4])
+        iuf = rng.choice([['ignore', 'forget', 'forget', 'none'], ['ignore', 'none', 'forget', 'none'], ['ignore', 'none', 'none', 'forget']])
     cmds = [kind] * nsteps if kind in ('forget', 'ignore', 'reset-dep') else None
     steps = []
     ck = spec['pre']['ck']
     for si in range(nsteps):
-        cmd = cmds[si] if cmds else rng.choice(['forget', 'forget', 'ignore', 'reset-dep'])
-        if kind == 'ignore-until-forget':
-            cmd = ['ignore', 'forget', 'forget'][si]
+        cmd = cmds[si] if cmds else rng.choice(['forget', 'forget', 'ignore', 'ignore', 'reset-dep', 'none'])
+        if iuf:
+            cmd = iuf[si]
         mut = []
         for _ in range(rng.choice([0, 1, 1, 2, 3])):
             r = rng.random()
@@ -892,9 +942,10 @@ def gen_step(rng, cmd, names, mut, prev=()):
     flags, a = [], dict(names=[], sub=False, dd=False, all=False)
     r = rng.random()
     pool = list(names)
-    if prev and prev[-1]['cmd'] == 'ignore' and prev[-1]['margs']['names'] and rng.random() < 0.6:
-        pool = [n for n in prev[-1]['margs']['names'] if n in names] or pool        # forget what was just ignored
-    if r < 0.22:
+    done = [p for p in prev if p['cmd'] != 'none']
+    if done and done[-1]['cmd'] == 'ignore' and done[-1]['margs']['names'] and rng.random() < 0.6:
+        pool = [n for n in done[-1]['margs']['names'] if n in names] or pool        # forget what was just ignored
+    if r < 0.22 or cmd == 'none':
         pass
     elif r < 0.75:
         a['names'] = rng.sample(pool, min(len(pool), rng.choice([1, 1, 1, 2])))
@@ -919,7 +970,30 @@ def gen_step(rng, cmd, names, mut, prev=()):
             flags.append('--disable-default')
         elif r < 0.22:
             flags.append('--enable-default')
-    return dict(mut=[list(m) for m in mut], cmd=cmd, flags=flags, margs=a, follow=rng.random() < 0.85)
+    return dict(mut=[list(m) for m in mut], cmd=cmd, flags=flags, margs=a, follow=cmd == 'none' or rng.random() < 0.85,
+                run=gen_run(rng, names))
+
+
+def R(always=False, cont=True, par=False, sel=None, long=False):
+    """options of a `doit run`"""
+    flags = []
+    if always:
+        flags.append('--always-execute' if long else '-a')
+    if cont:
+        flags.append('--continue' if long or not always else '-c')
+    if par:
+        flags += ['-n', '2', '-P', 'thread']
+    return dict(flags=flags, always=always, cont=cont, par=par, sel=None if sel is None else list(sel))
+
+
+def gen_run(rng, names):
+    always = rng.random() < 0.45
+    cont = rng.random() < 0.72
+    par = cont and rng.random() < 0.2
+    sel = None
+    if rng.random() < 0.4:
+        sel = rng.sample(names, min(len(names), rng.choice([1, 1, 2, 3])))
+    return R(always, cont, par, sel, rng.random() < 0.5)
 
 
 def T(**kw):
@@ -930,21 +1004,21 @@ def T(**kw):
 
 def fixed_specs():
     """the argument forms of the statement on one small table: a -> b (task_dep), c -> s (setup), g = {g:x, g:y -> b}, d (no deps)"""
-    def base(default, steps, backend='json', stale=True, fail=()):
+    def base(default, steps, backend='json', stale=True, fail=(), csetup=('s',)):
         return dict(backend=backend, stale=stale, cli_db=False, default=default,
                     creators=[dict(kind='plain', name='a', task=T(task_dep=['b'], file_dep=[0], ret=('dict', 0, 3))),
                               dict(kind='group', name='g', subs=[dict(name='x', task=T(file_dep=[1], uptodate=[['run_once']])),
                                                                   dict(name='y', task=T(task_dep=['b'], targets=[4]))]),
-                              dict(kind='plain', name='c', task=T(setup=['s'], file_dep=[2], ret=('str', 1))),
+                              dict(kind='plain', name='c', task=T(setup=list(csetup), file_dep=[2], ret=('str', 1))),
                               dict(kind='plain', name='b', task=T(file_dep=[0, 1], uptodate=[['config', 1]])),
                               dict(kind='plain', name='s', task=T(file_dep=[3], uptodate=[['bool', True]])),
                               dict(kind='plain', name='d', task=T())],
                     files={'0': 0, '1': 1, '2': 2, '3': 3, '4': 0}, pre=dict(fail=list(fail), ck='md5'), steps=steps)
 
-    def st(cmd, names=(), flags=(), mut=(), follow=True, **kw):
+    def st(cmd, names=(), flags=(), mut=(), follow=True, run=None, **kw):
         a = dict(names=list(names), sub=False, dd=False, all=False)
         a.update(kw)
-        return dict(mut=[list(m) for m in mut], cmd=cmd, flags=list(flags), margs=a, follow=follow)
+        return dict(mut=[list(m) for m in mut], cmd=cmd, flags=list(flags), margs=a, follow=follow, run=run or R())
     out = []
     for b in BACKENDS:
         out += [
@@ -964,11 +1038,33 @@ def fixed_specs():
             base(None, [st('reset-dep', mut=[('checker', 'timestamp')])], b),           # the documented use-case
             base(None, [st('reset-dep', ['a'], mut=[('setdef', 'a', 'file_dep', [0, 3])])], b, fail=['b']),
             base(None, [st('reset-dep', ['zz'])], b),
+            # run; ignore T; run -a; run -a <dependents>; run; forget T; run  (the first run is the pre-state)
+            base(None, [st('ignore', ['b'], run=R(always=True)), st('none', run=R(always=True, sel=['a', 'g:y'])),
+                        st('none'), st('forget', ['b'])], b),                           # T plain: a, g:y (and so g) depend on it
+            base(None, [st('ignore', ['g'], run=R(always=True, long=True)), st('none', run=R(always=True, sel=['g:x', 'g'], par=True)),
+                        st('none', run=R(cont=False)), st('forget', ['g'])], b),        # T a group: its sub-tasks
+            base(None, [st('ignore', ['s'], run=R(always=True, par=True), mut=[('write', 2, 0)]), st('none', run=R(always=True, sel=['c'])),
+                        st('none', run=R(par=True)), st('forget', ['s'])], b),          # T the setup-task of c
+            base(['a'], [st('ignore', ['b', 'g:x'], run=R(always=True, cont=False)), st('none', run=R(always=True, cont=False, sel=['g', 'd', 'a'])),
+                         st('forget', [], run=R(always=True))], b),                     # without --continue; forget of the default task only
+            # c has two setup-tasks, the FIRST one is ignored (its status must reach c although c becomes ready later)
+            base(None, [st('ignore', ['s'], mut=[('write', 2, 0)]), st('none', run=R(always=True)), st('forget', ['s'])], b, csetup=['s', 'd']),
+            # reset-dep under a changed checker of tasks whose status query ends before the checker test (an uptodate item
+            # is false): the saved values (a) and result (c) are kept
+            base(None, [st('reset-dep', ['a', 'c'], mut=[('checker', 'timestamp'), ('setdef', 'a', 'uptodate', [['bool', False]]),
+                                                          ('setdef', 'c', 'uptodate', [['call', False]])]),
+                        st('reset-dep', mut=[('checker', 'md5'), ('delete', 4)])], b),
         ]
     return out
 
 
 # ------------------------------------------------------------------ entry points
+def run_key(s):
+    ro, f = s['run'], s['follow']
+    return ('run', ro['always'], ro['cont'], ro['par'], ro['sel'] is not None, bool(s['marked']),
+            any(m & 4 for m in f.values()), any(m & 1 for m in f.values()), s['rc'])
+
+
 def key_of(s):
     return (s['cmd'], tuple(a if a.startswith('-') else ('T' if ':' not in a else 'S') for a in s['args']), s['code'], len(s['changed']),
             s['default'] is None, s['ntasks'])
@@ -976,12 +1072,15 @@ def key_of(s):
 
 def run(ctx):
     out = Outcome()
-    out.rule = ('16 fixed command sequences x 3 backends on the table of the statement (every argument form of the three commands) + random dodo '
-                'namespaces (2-5 creators, groups with 1-3 sub-tasks, task_dep/setup/calc_dep/implicit deps, uptodate items, default_tasks '
+    out.rule = ('22 fixed command sequences x 3 backends on the table of the statement (every argument form of the three commands; the '
+                'histories run, ignore T, run -a, run -a <dependents>, run, forget T, run for T plain / group / setup-task, serial and '
+                '-n 2 -P thread) + random dodo namespaces (2-5 creators, groups with 1-3 sub-tasks, task_dep/setup/calc_dep/implicit deps, uptodate items, default_tasks '
                 'absent/list/empty/unknown, stale record, DB options in DOIT_CONFIG or on the command line) x DB pre-state from a real run + '
-                'file/definition/checker changes x 1-3 command applications x backend, each followed by a recorded run.  one evaluation = one '
-                'command application.  non-trivial = distinct (command, argument form, outcome, number of records changed, default_tasks '
-                'configured?, table size) where the command changed the DB or was refused, on a table of >= 3 tasks')
+                'file/definition/checker changes x 1-4 steps (a command application, or none) x backend, each followed by a recorded run with '
+                'options from the PRNG (named selection, --continue or not, --always-execute or not, -n 2 -P thread).  one evaluation = one '
+                'step.  non-trivial = distinct (command, argument form, outcome, number of records changed, default_tasks '
+                'configured?, table size) where the command changed the DB or was refused, on a table of >= 3 tasks; plus distinct (options '
+                'of the following run, some task marked ignored?, some task reported ignored?, some task executed?, exit code) on such a table')
     cases = []
     specs = fixed_specs()
     n = ctx.n(70, 900)
@@ -1001,11 +1100,19 @@ def run(ctx):
                 out.count('dangling-dep')
             if s['follow'] is not None:
                 out.count('with-following-run')
+                ro = s['run']
+                for k, on in (('run-always-execute', ro['always']), ('run-without-continue', not ro['cont']), ('run-thread-parallel', ro['par']),
+                              ('run-named-selection', ro['sel'] is not None), ('run-always-execute-with-ignored-task', ro['always'] and s['marked'])):
+                    if on:
+                        out.count(k)
+                if s['ntasks'] >= 3:
+                    out.nontrivial.add(run_key(s))
             if s['ntasks'] >= 3 and (s['changed'] or s['code'] >= 100):
                 out.nontrivial.add(key_of(s))
-        if idx in (0, 8, len(specs) - 1):
+        if idx in (0, 8, 16, len(specs) - 1):
             out.samples.append(dict(tasks=[n for n, p, t in all_tasks(spec)], default_tasks=spec['default'], backend=spec['backend'],
                                     steps=[dict(cmd=s['cmd'], args=s['args'], outcome=s['code'], records_changed=s['changed'],
+                                                next_run_args=s['run_args'] if s['follow'] is not None else None,
                                                 next_run=s['follow']) for s in summ]))
     out.evaluations = len(cases)
     bad = common.compare_with_model(ctx, PRE, cases, tag='c13')
@@ -1017,6 +1124,8 @@ def run(ctx):
         'task table read from the real Task objects (loader output for the commands, TaskControl output for the following run)',
         'md5 oracle = identity on content ids (5 byte strings with distinct digests); file mtimes are set by the harness (integer seconds, fresh for every write)',
         'in the following run every action succeeds and no task has a result_dep item: a task\'s verdict depends on its own record only',
+        'a thread-parallel run (-n 2 -P thread) is compared with the serial model run: per-task outcome and exit code under --continue are schedule independent (C08)',
+        'a run without --continue that ends with a failure: only soundness of what was reported is compared (the stopping point depends on set iteration order)',
         'callables in uptodate are oracles; delayed tasks, wild-card names and task options on the command line are outside this property',
     ]
     out.extra['trusted_base'] = ['harness/c13.py: namespace builder, recording reporter, parsing of the command output, DB dump, encoders']
@@ -1030,7 +1139,8 @@ def replay(ctx, payload):
     cases = []
     summ = run_case(ctx, out, spec, 0, cases)
     for s in summ:
-        print(s['cmd'], s['args'], 'outcome', s['code'], 'changed', s['changed'], 'next run', s['follow'])
+        print(s['cmd'], s['args'], 'outcome', s['code'], 'changed', s['changed'], 'ignore-marked', s['marked'],
+              'next run', s['run_args'], '->', s['follow'], 'exit', s['rc'])
     for v in out.violations:
         print('VIOLATION-REPLAY', v['shape'], v['what'])
     bad = common.compare_with_model(ctx, PRE, cases, tag='c13r')
